@@ -43,8 +43,7 @@ theorem evalB_window (o : Oracles) (env : Env) (c : Ctx) (a : AttrRow) :
   have h3 : evalB o env a.qrow (ge (.raw "traces_idx.timestamp_ns") (.int c.fromNs)) = decide (c.fromNs ≤ a.ts) := by
     simp [evalB, ge, evalE, cmpOp, qrow_qts, Val.cmpLe]
   have h4 : evalB o env a.qrow (lt (.raw "traces_idx.timestamp_ns") (.int c.toNs)) = decide (a.ts < c.toNs) := by
-    simp [evalB, lt, evalE, cmpOp, qrow_qts, Val.cmpLe]
-    rw [Bool.eq_iff_iff]; simp
+    simp [evalB, lt, evalE, cmpOp, qrow_qts, Val.cmpLt]
   rw [h1, h2, h3, h4]
   simp [Bool.and_assoc]
 
